@@ -155,8 +155,8 @@ theorem run_cfg (ops : List Op) : ∀ s : S, (run s ops).cfg = s.cfg := by
       unfold connectionLost
       split
       · rfl
-      · unfold reportClose markClosed cancelOnLost
-        split <;> split <;> (try split) <;> rfl
+      · unfold reportClose unsentUnclean markClosed cancelOnLost
+        split <;> split <;> (try split) <;> (try split) <;> rfl
     · exact (stepCore_Ext s op h).cfg
 
 /-- **C05: closing is bounded** — every configuration with the governing timeouts on, every history that leaves the
